@@ -203,6 +203,25 @@ def end_to_end(ctx, thorough, bind=""):
                     ok = e2e.wait_until(lambda: col.stats()[name]["DecodedCount"] > base["DecodedCount"], timeout=5)
                     if ok:
                         acked[proto] = [a for a in acked[proto] if (a[0], a[1]) != (src, tid)] + [(src, tid, v)]
+            if cyc == 0 and not bind:
+                # "bursts of template announcements ... from many exporters": 2400 templates of 20 fields from 8 exporters - the
+                # cache files this and every later incarnation saves and loads are a few megabytes long
+                for proto in ("ipfix", "netflow9"):
+                    dg = []
+                    for k in range(240):
+                        recs = []
+                        for t in range(10):
+                            recs += c04.u16(20000 + k * 10 + t) + c04.u16(20) + [o for f in range(20) for o in c04.u16(1 + f) + c04.u16(4)]
+                        if proto == "ipfix":
+                            body = c04.u16(2) + c04.u16(4 + len(recs)) + recs
+                            dg.append((srcs[k % len(srcs)], [0, 10] + c04.u16(16 + len(body)) + [0] * 12 + body))
+                        else:
+                            dg.append((srcs[k % len(srcs)], [0, 9, 0, 10] + [0] * 16 + c04.u16(0) + c04.u16(4 + len(recs)) + recs))
+                    base = col.stats()[e2e.KEY[proto]]
+                    e2e.send_paced(col, senders, proto, dg, base["UDPCount"])
+                    if not e2e.wait_until(lambda: col.stats()[e2e.KEY[proto]]["DecodedCount"] >= base["DecodedCount"] + len(dg), timeout=10):
+                        raise vlib.Infra("the collector did not decode the burst of template announcements")
+                ctx.extra["e2e_templates_in_cache_files"] = 2400 + len(acked["ipfix"])
             # traffic in flight when the signal arrives
             # "sustained": the exporters do not pause for the signal - datagrams keep arriving on every port until the process is gone
             n = {"idle": 0, "steady": 60, "burst": 400, "sustained": 10 ** 6}[scenario]
